@@ -228,6 +228,7 @@ class Runner:
         self.spec_cmp = StreamCmp(TOL_SPEC)
         self.spec_lines = 0
         self.streams_out = []
+        self.dis = []
         self.exact_histories = 0
 
     def spec_run(self, lines):
@@ -241,10 +242,12 @@ class Runner:
         self.streams_out.append((lines, list(impl)))
         impl2, model2 = [], []
         failed = False     # a verdict was given in the current history: what follows is a consequence
+        diverged = False   # model and implementation already disagreed in the current history
         for i, line in enumerate(lines):
             if line.startswith("mode "):
                 self.model_cmp.reset(); self.spec_cmp.reset()
                 failed = False
+                diverged = False
             im, mo, sp = impl[i], model[i], spec[i]
             self.model_cmp.note(line); self.spec_cmp.note(line)
             if im == "skipped":
@@ -268,12 +271,17 @@ class Runner:
                 self.verdicts[(sid, i)] = w
             self.spec_out[(sid, i)] = sp
             ok = self.model_cmp.line(im, mo) or (mo == "crash" and im.startswith("crash"))
-            if w:
-                # the runner stops a stateful stream at a model/implementation disagreement before judging
-                # the line; a line with a verdict must reach the judge, so the disagreement is not raised here
-                ok = True
+            # the generic runner stops a stateful stream at the first model/implementation disagreement,
+            # before judging the line; here every line must reach the judge (a verdict later in the history
+            # is the failing input that is looked for), so disagreements are collected here instead: the
+            # first one of each history
+            if not ok and not w and not diverged:
+                diverged = True
+                self.dis.append({"family": "optim", "harness": "h_optim", "variant": "asan", "stateful": True,
+                                 "lines": lines[: i + 1], "index": i, "line": line, "impl": im, "model": mo,
+                                 "harness_args": None, "spec": sp})
             impl2.append(im + tag)
-            model2.append((im if ok else mo) + tag)
+            model2.append(im + tag)
         return impl2, model2
 
     def judge(self, line, impl, model):
@@ -297,7 +305,7 @@ class Runner:
             if "impl" in smp:
                 smp["impl"] = untag(smp["impl"])[0]
                 smp["model"] = untag(smp["model"])[0]
-        return dis, judged, crashes
+        return self.dis, judged, crashes
 
 
 _EXE = None
